@@ -17,7 +17,7 @@ def main():
         if not os.path.isfile(pf):
             continue
         try:
-            prop = json.load(open(os.path.join(d, 'meta.json'))).get('property') or n.split('-')[0]
+            prop = (json.load(open(os.path.join(d, 'meta.json'))).get('property') or n)[:3]
         except Exception:
             prop = n.split('-')[0]
         scratch = tempfile.mkdtemp(prefix='urcu-seed-%s-' % n, dir='/var/tmp')
